@@ -338,8 +338,13 @@ func vh_C12_L1_roundtrip_control() {
 		ns := vPick(3)
 		in := &chunkIForwardTSN{newCumulativeTSN: nondetU32()}
 		vassume(in.newCumulativeTSN != 0 || true)
+		sameStream := ns == 2 && vPick(2) == 1 // an ordered and an unordered entry for one stream, as createIForwardTSN builds them
 		for i := 0; i < ns; i++ {
-			in.streams = append(in.streams, chunkIForwardTSNStream{identifier: uint16(i), unordered: nondetBool(), messageIdentifier: nondetU32()})
+			e := chunkIForwardTSNStream{identifier: uint16(i), unordered: nondetBool(), messageIdentifier: nondetU32()}
+			if sameStream {
+				e.identifier, e.unordered = 7, i == 1
+			}
+			in.streams = append(in.streams, e)
 		}
 		outc := vRoundTrip(in)
 		if outc == nil {
@@ -359,7 +364,29 @@ func vh_C12_L1_roundtrip_control() {
 }
 
 func vh_C12_L1_roundtrip_abort_reconfig() {
-	switch vPick(4) {
+	switch vPick(5) {
+	case 4:
+		// RECONFIG with two parameters: a reset request with an odd number of streams (needs
+		// padding before parameter B) and a response
+		req := &paramOutgoingResetRequest{reconfigRequestSequenceNumber: nondetU32(), reconfigResponseSequenceNumber: nondetU32(), senderLastTSN: nondetU32(), streamIdentifiers: []uint16{nondetU16()}}
+		resp := &paramReconfigResponse{reconfigResponseSequenceNumber: nondetU32(), result: reconfigResultSuccessPerformed}
+		outc := vRoundTrip(&chunkReconfig{paramA: req, paramB: resp})
+		if outc == nil {
+			return
+		}
+		out, ok := outc.(*chunkReconfig)
+		vassert(ok, "RECONFIG decodes as RECONFIG")
+		if !ok {
+			return
+		}
+		ga, okA := out.paramA.(*paramOutgoingResetRequest)
+		gb, okB := out.paramB.(*paramReconfigResponse)
+		vassert(okA && okB, "both parameters survive")
+		if okA && okB {
+			vassert(ga.senderLastTSN == req.senderLastTSN && len(ga.streamIdentifiers) == 1 && ga.streamIdentifiers[0] == req.streamIdentifiers[0], "parameter A preserved")
+			vassert(gb.reconfigResponseSequenceNumber == resp.reconfigResponseSequenceNumber && gb.result == resp.result, "parameter B preserved")
+		}
+		vcover("reconfig-two-params")
 	case 0:
 		// ABORT with a protocol-violation cause, as the association builds it
 		n := vPick(4)
